@@ -335,18 +335,20 @@ def _make_fuv_usable_at_call_sites(Rg):
 #   NDIST(a, b)                distance between the centres of nodes a and b (the non-negative root of the squared distance);
 #                              its defining property NDIST >= 0, NDIST^2 = |a - b|^2 is instantiated by hand at the edges the
 #                              leave step looks at (a nonlinear fact under a quantifier would poison every obligation)
-#   SHARE(x)                   what node x contributes: sphere(x) + [level >= 2] sum over its child edges of the frustum
+#   SHARE(a, x)                what node x contributes at accuracy level a: sphere(x) + [level >= 2] sum over its child edges of the frustum
 #                              - [level >= 3] the two sphere/frustum intersections of each child edge
 #                              - [level >= 5] the Monte-Carlo terms (pairs of child frusta outside the node's sphere)
-#   SUMV(S)                    sum of SHARE over a finite node set S:  SUMV({}) = 0,  SUMV(S + x) = SUMV(S) + SHARE(x) for x not in S
+#   SUMV(a, S)                 sum of SHARE(a, .) over a finite node set S:  SUMV(a, {}) = 0,  SUMV(a, S + x) = SUMV(a, S) + SHARE(a, x) for x not in S
+# The level is an ARGUMENT of SHARE / SUMV: a caller that hands a different level to the worker than the one its own clause speaks
+# about gets two unrelated sums, never one symbol with two definitions.
 MAXK = 3  # numbers of children the leave step is run for: 0..MAXK (that no node has more is a precondition, proved at the call)
 _B = z3.BoolSort()
 NK = z3.Function("children_count", _I, _I)
 KID = z3.Function("child", _I, _I, _I)
 RANK = z3.Function("child_rank", _I, _I)
 NDIST = z3.Function("node_distance", _I, _I, _Re)
-SHARE = z3.Function("node_share", _I, _Re)
-SUMV = z3.Function("sum_of_node_shares", z3.ArraySort(_I, _B), _Re)
+SHARE = z3.Function("node_share", _I, _I, _Re)
+SUMV = z3.Function("sum_of_node_shares", _I, z3.ArraySort(_I, _B), _Re)
 MCV = z3.Real("monte_carlo_only_estimate")  # what the (assumed) level-10 worker returns
 EMPTY = z3.K(_I, z3.BoolVal(False))
 
@@ -363,7 +365,7 @@ NODES = z3.Const("all_nodes_of_the_table", z3.ArraySort(_I, _B))  # the node set
 
 
 def share_term(t, acc, x, nk=NK, kid=KID):
-    """SHARE(x) written out for a node with at most MAXK children"""
+    """SHARE(acc, x) written out for a node with at most MAXK children"""
     zero = z3.RealVal(0)
     cn, rn = tpos(t, x), trad(t, x)
     ks = [kid(x, z3.IntVal(j)) for j in range(MAXK)]
@@ -384,8 +386,8 @@ def tree_vocabulary(E, old):
     t, acc = old["tree"], to_z3(old["accuracy"], "int") if not isinstance(old["accuracy"], str) else None
     if acc is None:
         acc = z3.IntVal({"low": 3, "middle": 5, "high": 8}.get(old["accuracy"], 0))
-    key = ("c14-vocabulary", col(t, "pid").uid)
-    if any(isinstance(k, tuple) and k and k[0] == "c14-vocabulary" and k != key for k in E.ghost):
+    key = ("c14-vocabulary", col(t, "pid").uid, acc.sexpr())
+    if any(isinstance(k, tuple) and k and k[0] == "c14-vocabulary" and k[1] != key[1] for k in E.ghost):
         from pyvc.engine import Unsupported
 
         raise Unsupported("C14 vocabulary: two different trees in one proof")
@@ -401,12 +403,12 @@ def tree_vocabulary(E, old):
     E.assume(z3.ForAll([x, k], z3.Implies(z3.And(0 <= k, k < NK(x)), z3.And(Rn(KID(x, k)), sel(P, KID(x, k)) == x, RANK(KID(x, k)) == k))))
     E.assume(z3.ForAll([x, k, k2], z3.Implies(z3.And(0 <= k, k < k2, k2 < NK(x)), KID(x, k) < KID(x, k2))))
     E.assume(z3.ForAll([c], z3.Implies(z3.And(Rn(c), sel(P, c) >= 0), z3.And(0 <= RANK(c), RANK(c) < NK(sel(P, c)), KID(sel(P, c), RANK(c)) == c))))
-    E.assume(z3.ForAll([x], z3.Implies(Rn(x), SHARE(x) == share_term(t, acc, x))))
+    E.assume(z3.ForAll([x], z3.Implies(Rn(x), SHARE(acc, x) == share_term(t, acc, x))))
     E.assume(z3.ForAll([x], sel(NODES, x) == Rn(x)))
-    # the fold: SUMV({}) = 0 here; the step equation SUMV(S + x) = SUMV(S) + SHARE(x) (x a node not in S) is instantiated by
+    # the fold: SUMV(a, {}) = 0 here; the step equation SUMV(a, S + x) = SUMV(a, S) + SHARE(a, x) (x a node not in S) is instantiated by
     # `sumv_unfold` at the sets the proof mentions -- a universally quantified ARRAY variable sends the solver's model finder
     # into a search that ignores its time limit whenever an obligation fails
-    E.assume(SUMV(EMPTY) == 0)
+    E.assume(SUMV(acc, EMPTY) == 0)
     E.assumptions.add("ghost definitions (C14 whole-tree statement): children_count / child / child_rank (children in table order), "
                       "node_distance (non-negative root of the squared centre distance of two nodes; defining property instantiated at the edges of the leave step), node_share (the per-node inclusion-exclusion share, "
                       f"written out for at most {MAXK} children), sum_of_node_shares (fold of node_share over a finite node set; its step equation instantiated at the sets of the leave step), all_nodes_of_the_table (the set of row positions)")
@@ -486,15 +488,16 @@ def gvfc_Ql(E, v, x, val, ctx):
 def gvfc_J(E, v, ENT, LEFT, ctx):
     """volume so far = sum of the shares of the nodes left so far"""
     E.ghost["c14-node-set-of-the-last-J"] = LEFT
-    sumv_unfold(E, LEFT, nof(v["tree"]))
-    return R(v["volume"]) == SUMV(LEFT)
+    acc = to_z3(v["accuracy"], "int")
+    sumv_unfold(E, acc, LEFT, nof(v["tree"]))
+    return R(v["volume"]) == SUMV(acc, LEFT)
 
 
-def sumv_unfold(E, S, n):
+def sumv_unfold(E, acc, S, n):
     """instance of the defining step equation of SUMV at a set written  S0 + {x}  (a z3 Store of `true`)"""
     if z3.is_app(S) and S.decl().kind() == z3.Z3_OP_STORE and z3.is_true(S.arg(2)):
         S0, x = S.arg(0), S.arg(1)
-        E.assume(z3.Implies(z3.And(x >= 0, x < n, z3.Not(z3.Select(S0, x))), SUMV(S) == SUMV(S0) + SHARE(x)))
+        E.assume(z3.Implies(z3.And(x >= 0, x < n, z3.Not(z3.Select(S0, x))), SUMV(acc, S) == SUMV(acc, S0) + SHARE(acc, x)))
 
 
 def gvfc_step_hints(E, v, x, ctx):
@@ -560,7 +563,7 @@ def _roots_equal(a, b):
 
 def gvfc_post(E, v, o):
     acc = to_z3(o["accuracy"], "int")
-    return z3.If(acc <= 9, R(v["result"]) == SUMV(NODES), R(v["result"]) == MCV)
+    return z3.If(acc <= 9, R(v["result"]) == SUMV(acc, NODES), R(v["result"]) == MCV)
 
 
 def gvfc_post_hint(E, vars):
@@ -667,7 +670,7 @@ def register(Rg: Registry):
         lvl = level_of(o["accuracy"])
         if lvl is None:
             return False
-        return z3.If(to_z3(lvl, "int") <= 9, R(v["result"]) == SUMV(NODES), R(v["result"]) == MCV)
+        return z3.If(to_z3(lvl, "int") <= 9, R(v["result"]) == SUMV(to_z3(lvl, "int"), NODES), R(v["result"]) == MCV)
 
     def gv_level_ok(E, v, o):
         lvl = level_of(o["accuracy"])
